@@ -24,6 +24,15 @@ type verifExpPrecT struct {
 	Assoc int // 1 left, 2 right, 3 nonassoc
 }
 
+// verifSymName is the identifier name yaccgo uses for a symbol reference of the specification
+// (character literals get the repository's own temporary name).
+func verifSymName(ref string) string {
+	if len(ref) >= 3 && ref[0] == '\'' {
+		return genTempName(ref[1 : len(ref)-1])
+	}
+	return ref
+}
+
 // verifRender concatenates the pieces, inserting extra[i] after separator i.
 func verifRender(id int, extra map[int]string) string {
 	out := ""
@@ -58,12 +67,12 @@ func verifCheckRead(id int, text string, code, union, rest string, actionOf map[
 		verifAssert(len(r.RighPart) == len(e.Rhs), "C10: number of right-hand-side symbols differs from the file")
 		if len(r.RighPart) == len(e.Rhs) {
 			for i := range e.Rhs {
-				verifAssert(r.RighPart[i].Name == e.Rhs[i], "C10: right-hand-side symbol differs from the file")
+				verifAssert(r.RighPart[i].Name == verifSymName(e.Rhs[i]), "C10: right-hand-side symbol differs from the file")
 			}
 		}
 		// the rule's precedence symbol: its %prec annotation, else its last terminal that has a level, else none
 		if e.Prec != "" {
-			verifAssert(r.PrecIdSym != nil && r.PrecIdSym.Id.Name == e.Prec, "C10: %prec annotation lost or changed")
+			verifAssert(r.PrecIdSym != nil && r.PrecIdSym.Id.Name == verifSymName(e.Prec), "C10: %prec annotation lost or changed")
 		} else {
 			verifAssert(r.PrecIdSym == nil, "C10: a rule without %prec and without a terminal that has a level was given a precedence")
 		}
@@ -77,7 +86,7 @@ func verifCheckRead(id int, text string, code, union, rest string, actionOf map[
 		verifAssert(v.startSym != nil && v.startSym.Name == verifExpStart[id], "C10: declared start symbol differs from the file")
 	}
 	for _, t := range verifExpToks[id] {
-		idn := v.idsymtabl[t.Name]
+		idn := v.idsymtabl[verifSymName(t.Name)]
 		verifAssert(idn != nil, "C10: a declared symbol is missing")
 		if idn == nil {
 			continue
@@ -93,7 +102,7 @@ func verifCheckRead(id int, text string, code, union, rest string, actionOf map[
 		}
 	}
 	for _, p := range verifExpPrec[id] {
-		pr := v.preMap[p.Name]
+		pr := v.preMap[verifSymName(p.Name)]
 		verifAssert(pr != nil, "C10: precedence declaration lost")
 		if pr != nil {
 			verifAssert(pr.Prec == p.Level && int(pr.AssocType) == p.Assoc, "C10: precedence level or associativity differs from the file")
